@@ -355,10 +355,11 @@ type HeldLock struct {
 }
 
 type Deferred struct {
-	Fn    Val
-	Args  []Val
-	Instr *ssa.Defer
-	Call  *ssa.CallCommon
+	Fn       Val
+	Args     []Val
+	Instr    *ssa.Defer
+	Call     *ssa.CallCommon
+	Injected string // pending defer carried across a loop cut (label of the pending-defer clause)
 }
 
 type Frame struct {
@@ -422,6 +423,10 @@ func (s *State) clone() *State {
 			nf.Vals[k] = v
 		}
 		nf.Defers = append([]Deferred(nil), f.Defers...)
+		nf.Cells = make(map[string]*Cell, len(f.Cells))
+		for k, v := range f.Cells {
+			nf.Cells[k] = v
+		}
 		nf.LoopSeen = make(map[int]bool, len(f.LoopSeen))
 		for k, v := range f.LoopSeen {
 			nf.LoopSeen[k] = v
@@ -565,6 +570,12 @@ func (e *Engine) readLoc(st *State, base string, ft types.Type, ref T) Val {
 		}
 		lenT := e.regionRead(st, base+".len", []Sort{SRef}, SInt, ref)
 		nilT := e.regionRead(st, base+".nil", []Sort{SRef}, SBool, ref)
+		if _, seen := st.Facts["len>=0:"+lenT.S]; !seen && st.Facts != nil {
+			// type invariant of slices: non-negative length, nil slices are empty
+			st.Facts["len>=0:"+lenT.S] = ""
+			st.assume(App(SBool, ">=", lenT, IntLit(0)))
+			st.assume(Implies(nilT, Eq(lenT, IntLit(0))))
+		}
 		atSym := e.region(st, base+".at", []Sort{SRef, SInt}, es)
 		i := T{"i!", SInt}
 		at := e.defineFun("row_"+base, []T{i}, es, App(es, atSym, ref, i))
